@@ -936,6 +936,49 @@ theorem num_f64_exact_run (keep : Bool) (l : List F64) (hf : ∀ x ∈ l, x.isFi
       rw [F64.toRat?_eq_some]
       exact ⟨by decide, F64.toRat_eq_zero_of_mag (x := F64.zero false) (by decide)⟩
 
+/-- Small integers.  For integer samples `|x| ≤ 2^53` (at most 2^53 of them) that pass the decidable check `allRepB`
+(every intermediate value of the exact recurrence is a float – e.g. whenever the running means are dyadic with
+few bits, as for 1, 2, 3, 4 or the odd numbers 1 … 15 below; it fails for 2, 4, 4 whose mean 10/3 is no float):
+`Mean()·n` is EXACTLY the integer sum and `M2` EXACTLY `Σ (x − mean)²` – nothing was rounded. -/
+theorem num_f64_small_ints_exact (keep : Bool) (l : List Int) (hl : ∀ x ∈ l, x.natAbs ≤ 9007199254740992)
+    (hn : l.length ≤ 9007199254740992)
+    (hr : allRepB (Numerical.new ratOps) (l.map fun (x : Int) => (x : Rat)) = true) :
+    let r := runFv keep (l.map F64.ofInt)
+    let q := l.map fun (x : Int) => (x : Rat)
+    r.mean.isFinite = true ∧ r.mean.toRat * (l.length : Rat) = ratSum q ∧
+    r.variance.toRat? = some (m2 q) := by
+  intro r q
+  have hmap : (l.map F64.ofInt).map F64.toRat = q := by
+    rw [List.map_map]
+    show List.map (F64.toRat ∘ F64.ofInt) l = List.map (fun (x : Int) => (x : Rat)) l
+    apply List.map_congr_left
+    intro x hx
+    exact (F64.isFinite_ofInt x (hl x hx)).2
+  have hf : ∀ y ∈ l.map F64.ofInt, y.isFinite = true := by
+    intro y hy
+    obtain ⟨x, hx, rfl⟩ := List.mem_map.mp hy
+    exact (F64.isFinite_ofInt x (hl x hx)).1
+  obtain ⟨_, h2, h3, _⟩ := num_f64_exact_run keep (l.map F64.ofInt) hf (by simpa using hn)
+    (by rw [hmap]; exact allRep_of_allRepB _ _ hr)
+  rw [hmap] at h2 h3
+  obtain ⟨mf, mv⟩ := F64.toRat?_eq_some.mp h2
+  refine ⟨mf, ?_, h3⟩
+  show (runFv keep (l.map F64.ofInt)).mean.toRat * (l.length : Rat) = ratSum q
+  rw [mv]
+  have hlen : q.length = l.length := by simp [q]
+  unfold mean
+  rw [hlen]
+  cases l with
+  | nil => simp [q, ratSum]
+  | cons x l' =>
+    have hne := natCast_succ_ne_zero l'.length
+    have : (((x :: l').length : Nat) : Rat) = (l'.length : Rat) + 1 := by simp [Rat.natCast_add]
+    rw [this]
+    exact Rat.div_mul_cancel hne
+
+example : allRepB (Numerical.new ratOps) ([1, 3, 5, 7, 9, 11, 13, 15].map fun x : Int => (x : Rat)) = true := by decide +kernel
+example : ∀ x ∈ ([1, 3, 5, 7, 9, 11, 13, 15] : List Int), x.natAbs ≤ 9007199254740992 := by decide
+
 /-- Constant samples (any finite float, up to 2^53 of them): after every prefix the mean is EXACTLY the sample
 (the same bit pattern unless the sample is `-0`, whose mean is `+0`), `M2`, `Variance()` and `StdDev()` are exactly 0 –
 Welford's update has nothing to cancel (the sum-of-squares formula of seeded/C07-variance-sumsq does not have this
